@@ -367,6 +367,12 @@ def run(ctx):
     seen = {repr(sorted(c.items())) for c in cases}
     cases += [c for c in extra if repr(sorted(c.items())) not in seen]
     jobs = [("gen", c, t, a) for c in cases for t in wfn.TARGETS for a in (False, True)]
+    # ... and conventions x stored density matrices (x shell set in the thorough tier) for the one target that stores them
+    rdm = [dict(default, conventions=cv, extras=ex, shellset=ss) for cv in axes["conventions"] for ex in axes["extras"] if ex.startswith("rdm")
+           for ss in (axes["shellset"] if ctx.thorough else [default["shellset"], "+d-pure"])]
+    rdm = [c for c in rdm if repr(sorted(c.items())) not in seen and repr(sorted(c.items())) not in {repr(sorted(e.items())) for e in extra}]
+    jobs += [("gen", c, "fchk", a) for c in rdm for a in (False, True)]
+    cases += rdm
     files = corpus_sources(ctx.thorough)
     jobs += [("corpus", f, t, a) for f in files for t in wfn.TARGETS for a in (False, True)]
     pmap(ctx, worker, jobs, chunk=8)
@@ -374,7 +380,7 @@ def run(ctx):
     ctx.cov.update(dbe_k=k, generated_cases=len(cases), corpus_sources=len(files), targets=list(wfn.TARGETS))
     ctx.exhaustive = True
     ctx.rule = (
-        f"deviation-bounded enumeration k<={k} (plus the full product shell order x conventions, thorough: x contraction) over centers(6) x shell set(13) x contraction(5) x shell order(7) x conventions(10) x orbitals(9) x extras(7), every case fully crossed with the 5 dumpable "
+        f"deviation-bounded enumeration k<={k} (plus the full products shell order x conventions [thorough: x contraction] and, for FCHK, conventions x stored density matrices x (Cartesian, pure) d shells [thorough: x every shell set]) over centers(6) x shell set(13) x contraction(5) x shell order(7) x conventions(10) x orbitals(9) x extras(7), every case fully crossed with the 5 dumpable "
         f"wavefunction formats x allow_changes; plus {len(files)} corpus wavefunction files as sources x 5 x 2. Outcome must be an error or a file that reloads to the same nuclei and, for every orbital, "
         "the same values at 14 probe points (independent evaluator ref/gto.py on source and reloaded object), same occupations/energies/spin and same density for stored density matrices. "
         "Distinct = (deviation set or corpus file, target, allow_changes)."
